@@ -108,7 +108,10 @@ CHECKS.update({
             "For 24 (call, starting state) cases the kernel-visible tree before every file-system operation and after the "
             "last is captured; every distinct crash image is re-opened by a fresh FileHashStore: bystanders' bytes, "
             "references and metadata must be as before, the interrupted pid is served exact bytes or a not-found / "
-            "inconsistency class, delete_object then store_object must succeed, I9 must hold.",
+            "inconsistency class, delete_object then store_object must succeed, I9 must hold. The images that FOLLOW every "
+            "fault site of each call (one-off and persistent EIO) are crash images too; four cases run on a depth-1/width-1 "
+            "store whose bystander shares the shard directory; images while two calls are in flight come from engine T. "
+            "Known findings C10-F1 / C10-F2 are listed by exact instance.",
             "Trusted: the interposition layer's view of completed system calls. Power loss / page-cache loss not modelled.",
             "exhaustive crash-point enumeration on the implementation (every prefix of the call's system-call trace)", "4/C10"),
     "C12": ("T", "model_checking",
